@@ -6,6 +6,7 @@ CONSTANTS
   MaxIssued = 1
   Rebootstrap = FALSE
   Wipeouts = TRUE
+  Collide = TRUE
   Times = {1, 2}
   Design = "atomic"
 SPECIFICATION Spec
